@@ -302,3 +302,124 @@ class Pair:
                 pass
         for t in (self.tc, self.ts):
             t.join(5)
+
+
+# ----------------------------------------------------------------------------- plaintext-phase man in the middle
+def plain_packet(t, payload=b""):
+    """an unencrypted SSH packet (block size 8, zero padding)"""
+    import struct
+
+    body = bytes([t]) + payload
+    pad = 8 - ((len(body) + 5) % 8)
+    if pad < 4:
+        pad += 8
+    return struct.pack(">IB", len(body) + pad + 1, pad) + body + b"\0" * pad
+
+
+class Relay(threading.Thread):
+    """Copies src -> dst.  Parses the banner line and then plaintext packets up to and including NEWKEYS; each
+    packet goes through edit(direction, index, ptype, packet) -> list of packets to forward.  Raw copy afterwards."""
+
+    def __init__(self, src, dst, direction, edit):
+        super().__init__(daemon=True)
+        self.src, self.dst, self.direction, self.edit = src, dst, direction, edit
+        self.types = []
+        self.stop = False
+
+    def _rd(self, n):
+        buf = b""
+        while len(buf) < n:
+            if self.stop:
+                raise EOFError
+            try:
+                x = self.src.recv(n - len(buf))
+            except socket.timeout:
+                continue
+            if not x:
+                raise EOFError
+            buf += x
+        return buf
+
+    def run(self):
+        import struct
+
+        try:
+            line = b""
+            while not line.endswith(b"\n"):
+                line += self._rd(1)
+            self.dst.send(line)
+            idx = 0
+            while True:
+                hdr = self._rd(4)
+                body = self._rd(struct.unpack(">I", hdr)[0])
+                t = body[1]
+                self.types.append(t)
+                for p in self.edit(self.direction, idx, t, hdr + body):
+                    self.dst.send(p)
+                idx += 1
+                if t == 21:
+                    break
+            while not self.stop:
+                try:
+                    x = self.src.recv(65536)
+                except socket.timeout:
+                    continue
+                if not x:
+                    break
+                self.dst.send(x)
+        except (EOFError, OSError):
+            pass
+        for s in (self.dst, self.src):
+            try:
+                s.close()
+            except Exception:
+                pass
+
+
+class Tap:
+    """records what a transport's packetizer reads and writes (type, sequence number), from the outside"""
+
+    def __init__(self, t):
+        self.rx, self.tx, self.kexinit_names = [], [], []
+        pk = t.packetizer
+        orig_read, orig_send = pk.read_message, pk.send_message
+
+        def read_message():
+            ptype, m = orig_read()
+            names = None
+            if ptype == 20:
+                try:
+                    from paramiko import Message
+
+                    mm = Message(m.asbytes())
+                    mm.get_bytes(16)
+                    names = mm.get_list()
+                except Exception:
+                    names = "malformed"
+            self.rx.append((ptype, m.seqno, names))
+            return ptype, m
+
+        def send_message(data):
+            b = data.asbytes()
+            arg = int.from_bytes(b[1:5], "big") if b[0] == 3 else 0
+            with pk._Packetizer__write_lock:
+                self.tx.append((b[0], pk._Packetizer__sequence_number_out, arg))
+                return orig_send(data)
+
+        pk.read_message, pk.send_message = read_message, send_message
+
+
+_MODPACK = None
+
+
+def modulus_pack():
+    """a ModulusPack with one safe 2048-bit prime (RFC 3526 group 14), enough for server-side group exchange"""
+    global _MODPACK
+    if _MODPACK is None:
+        from paramiko.kex_group14 import KexGroup14
+        from paramiko.primes import ModulusPack
+
+        mp = ModulusPack()
+        mp.pack = {2048: [(2, KexGroup14.P)]}
+        _MODPACK = mp
+    return _MODPACK
